@@ -10,6 +10,9 @@ type GlobCache struct {
 	// m maps patterns to compiled glob matchers.
 	m sync.Map
 
+	// mu guards l, h and n.
+	mu sync.Mutex
+
 	// l contains the added patterns and serves as an LRU cache.
 	// l has a fixed size and is initialized in the constructor.
 	l []string
@@ -41,6 +44,14 @@ func (c *GlobCache) Get(pattern string) (glob.Glob, error) {
 	glbCompiled, err := glob.Compile(pattern)
 	if err != nil {
 		return nil, err
+	}
+
+	c.mu.Lock()
+	defer c.mu.Unlock()
+
+	// another request may have added the pattern in the meantime
+	if glb, ok := c.m.Load(pattern); ok {
+		return glb.(glob.Glob), nil
 	}
 
 	// if the LRU buffer is not full just append
